@@ -363,6 +363,20 @@ class Call:
             out.append("weights_container:" + container_kind(as_tuple(self.raw_weights)[0]))
             if np.shape(as_tuple(self.raw_weights)[0]) != np.shape(as_tuple(self.raw_data)[0]):
                 out.append("weights_shape_differs_from_data")
+        for name in ("spacing", "shape", "region"):
+            value = getattr(est, name, None)
+            if value is not None:
+                out.append("spelling:%s:%s" % (name, describe(value)))
+        for name in ("center_coordinates", "drop_coords", "uncertainty"):
+            value = getattr(est, name, None)
+            if value is not None and not isinstance(value, bool):
+                out.append("spelling:flag:%s:%s=%s" % (name, describe(value), bool(value)))
+        if len(self.coords) > 2 and any(not np.any(c) for c in self.coords[2:]):
+            out.append("falsy:extra_coordinate_exactly_0_everywhere")
+        if any(not np.any(d) for d in self.data):
+            out.append("falsy:data_component_exactly_0_everywhere")
+        if self.weights is not None and any(np.all(w == 1) for w in self.weights):
+            out.append("falsy:weights_exactly_1")
         kinds = set(container_kind(x) for x in list(self.raw_coordinates) + list(as_tuple(self.raw_data))
                     + (list(as_tuple(self.raw_weights)) if self.weights is not None else []))
         if "series_custom_index" in kinds:
@@ -745,3 +759,108 @@ def reconfigure(rng, est, changes):
     else:
         est = sklearn.base.clone(est).set_params(**changes)
     return est, how
+
+
+# --------------------------------------------------------------------------
+# equivalent spellings of the same argument (shared by C09 and C10)
+# --------------------------------------------------------------------------
+def describe(value):
+    """Short name of the way an argument is spelled (for the class counters)."""
+    if value is None:
+        return "None"
+    if isinstance(value, (bool, np.bool_)):
+        return "bool" if isinstance(value, bool) else "np.bool_"
+    if isinstance(value, int):
+        return "int"
+    if isinstance(value, float):
+        return "float"
+    if isinstance(value, np.generic):
+        return "np." + type(value).__name__
+    if isinstance(value, np.ndarray):
+        return "ndarray%dd(%s)" % (value.ndim, value.dtype)
+    if isinstance(value, (tuple, list)):
+        inner = sorted(set(describe(v) for v in value))
+        return "%s_of_%s" % (type(value).__name__, "+".join(inner))
+    if isinstance(value, str):
+        return "str"
+    if isinstance(value, type):
+        return "type:" + value.__name__
+    return type(value).__name__
+
+
+def spell_scalar(rng, x):
+    x = float(x)
+    options = ["float", "np.float64", "ndarray0d"]
+    if x.is_integer():
+        options += ["int", "int", "np.int64", "np.int32", "ndarray0d_int"]
+    kind = str(rng.choice(options))
+    return {"float": x, "np.float64": np.float64(x), "ndarray0d": np.array(x), "int": int(x), "np.int64": np.int64(x),
+            "np.int32": np.int32(x), "ndarray0d_int": np.array(int(x))}[kind]
+
+
+def spell_sequence(rng, values, integer_only=False):
+    values = [float(v) for v in values]
+    integral = all(v.is_integer() for v in values)
+    options = [] if integer_only else ["tuple", "list", "ndarray_float64", "tuple_np_float64"]
+    if integral:
+        options += ["list_int", "tuple_int", "ndarray_int64", "ndarray_int32", "tuple_np_int64"]
+    kind = str(rng.choice(options))
+    ints = [int(v) for v in values]
+    return {"tuple": tuple(values), "list": list(values), "ndarray_float64": np.array(values, dtype="float64"),
+            "tuple_np_float64": tuple(np.float64(v) for v in values), "list_int": ints, "tuple_int": tuple(ints),
+            "ndarray_int64": np.array(ints, dtype="int64"), "ndarray_int32": np.array(ints, dtype="int32"),
+            "tuple_np_int64": tuple(np.int64(v) for v in ints)}[kind]
+
+
+def spell_flag(rng, flag):
+    kind = str(rng.choice(["bool", "np.bool_", "int"]))
+    return {"bool": bool(flag), "np.bool_": np.bool_(bool(flag)), "int": int(bool(flag))}[kind]
+
+
+def respell(rng, kwargs):
+    """The same configuration with every argument in another (equivalent) spelling."""
+    out = dict(kwargs)
+    if out.get("spacing") is not None:
+        out["spacing"] = spell_scalar(rng, out["spacing"]) if np.size(out["spacing"]) == 1 else spell_sequence(rng, list(np.ravel(out["spacing"])))
+    if out.get("shape") is not None:
+        out["shape"] = spell_sequence(rng, list(out["shape"]), integer_only=True)
+    if out.get("region") is not None:
+        out["region"] = spell_sequence(rng, list(out["region"]))
+    for flag in ("center_coordinates", "drop_coords", "uncertainty"):
+        if flag in out:
+            out[flag] = spell_flag(rng, out[flag])
+    return out
+
+
+def integer_friendly(rng):
+    """
+    A cloud and block arguments whose spacing / region can be spelled with Python or numpy integers:
+    extents of 12..2000 units, integral spacings and region bounds.
+    """
+    n = int(rng.choice([6, 10, 16, 24, 40, 60]))
+    extent = float(10 ** rng.uniform(1.1, 3.3))
+    east, north = make_points(rng, n=n, kind=str(rng.choice(["uniform", "jitter", "clusters"])))
+    east = (east - east.min()) / ((east.max() - east.min()) or 1.0) * extent + float(rng.integers(-50, 50))
+    north = (north - north.min()) / ((north.max() - north.min()) or 1.0) * extent * rng.uniform(0.4, 1.0) + float(rng.integers(-50, 50))
+    kwargs = {}
+    width, height = east.max() - east.min(), north.max() - north.min()
+    if rng.random() < 0.55:
+        pad = rng.uniform(0, 0.4, 4) * (width, width, height, height)
+        region = [np.floor(east.min() - pad[0]), np.ceil(east.max() + pad[1]), np.floor(north.min() - pad[2]), np.ceil(north.max() + pad[3])]
+        if rng.random() < 0.25:  # points outside on the east / north side
+            region[1] = np.floor(east.min() + 0.8 * width)
+            region[3] = np.floor(north.min() + 0.8 * height)
+        kwargs["region"] = [float(v) for v in region]
+        width, height = region[1] - region[0], region[3] - region[2]
+    pick = rng.random()
+    if pick < 0.3:
+        kwargs["shape"] = (int(rng.integers(1, 7)), int(rng.integers(1, 7)))
+    elif pick < 0.6:
+        kwargs["spacing"] = float(max(1.0, np.round(min(width, height) / rng.uniform(0.8, 6.0))))
+    else:
+        kwargs["spacing"] = (float(max(1.0, np.round(height / rng.uniform(0.8, 6.5)))), float(max(1.0, np.round(width / rng.uniform(0.8, 6.5)))))
+    if "spacing" in kwargs and rng.random() < 0.4:
+        kwargs["adjust"] = "region"
+    kwargs["center_coordinates"] = bool(rng.random() < 0.5)
+    kwargs["drop_coords"] = bool(rng.random() < 0.5)
+    return np.ascontiguousarray(east), np.ascontiguousarray(north), kwargs
